@@ -680,7 +680,8 @@ class BufferByteArray(XBuffer):
 
     def update_from_buffer(self, offset, source):
         """Copy data from python buffer such as bytearray, bytes, memoryview, numpy array.data"""
-        nbytes = len(source)
+        # len() of a typed memoryview (numpy array.data) counts items
+        nbytes = getattr(source, "nbytes", len(source))
         self.buffer[offset : offset + nbytes] = source
 
     def to_nplike(self, offset, dtype, shape):
@@ -732,7 +733,8 @@ class BufferNumpy(XBuffer):
 
     def update_from_buffer(self, offset, source):
         """Copy data from python buffer such as bytearray, bytes, memoryview, numpy array.data"""
-        nbytes = len(source)
+        # len() of a typed memoryview (numpy array.data) counts items
+        nbytes = getattr(source, "nbytes", len(source))
         self.buffer[offset : offset + nbytes] = bytearray(source)
 
     def to_nplike(self, offset, dtype, shape):
